@@ -153,7 +153,83 @@ type c01env struct {
 func (ev *c01env) interp() *e6Interp {
 	return &e6Interp{PureCall: func(f *types.Func) bool {
 		return objIs(f, bfPkg, "Result", "ConfigIndex") || objIs(f, "bytes", "", "Equal") || objIs(f, "bytes", "", "Compare")
+	}, Inline: func(f *ssa.Function) bool {
+		// line-writing helpers of the writer: loop-free methods of Writer that only produce output
+		if f.Pkg == nil || f.Pkg.Pkg.Path() != bfPkg || f.Signature.Recv() == nil || recvName(f.Signature.Recv().Type()) != "Writer" || len(naturalLoops(f)) > 0 || len(f.Blocks) > 3 {
+			return false
+		}
+		onlyOutput := true
+		eachInstr(f, func(_ *ssa.BasicBlock, in ssa.Instruction) {
+			switch x := in.(type) {
+			case *ssa.MapUpdate, *ssa.Store:
+				onlyOutput = false
+			case ssa.CallInstruction:
+				if sc := x.Common().StaticCallee(); sc != nil && sc.Pkg == f.Pkg {
+					onlyOutput = false
+				}
+			}
+		})
+		return onlyOutput
 	}}
+}
+
+// outputLines: the configuration lines an outcome writes, by their skeleton. Output made with Fprintf, WriteString,
+// Write and WriteByte is concatenated with every non-constant piece replaced by '%'; each complete line is then a
+// deletion ("%:"), an assignment ("%: %") or unrecognised.
+func outputLines(as []e6Action) (del, set, unk int, skeleton string) {
+	var sb strings.Builder
+	for _, a := range as {
+		if a.Kind != "call" || a.Callee == nil {
+			continue
+		}
+		switch {
+		case objIs(a.Callee, "fmt", "", "Fprintf") && len(a.Args) >= 2:
+			f := a.Args[1]
+			if !f.isConst() || f.Const == nil || f.Const.Kind() != constant.String {
+				sb.WriteString("\x00")
+				continue
+			}
+			sb.WriteString(verbRe.ReplaceAllString(constant.StringVal(f.Const), "%"))
+		case a.Callee.Pkg() != nil && a.Callee.Pkg().Path() == "bytes" && (a.Callee.Name() == "WriteString" || a.Callee.Name() == "Write") && len(a.Args) == 2,
+			objIs(a.Callee, "io", "", "WriteString") && len(a.Args) == 2:
+			x := a.Args[1]
+			if x.isConst() && x.Const != nil && x.Const.Kind() == constant.String {
+				sb.WriteString(constant.StringVal(x.Const))
+			} else {
+				sb.WriteString("%")
+			}
+		case a.Callee.Pkg() != nil && a.Callee.Pkg().Path() == "bytes" && (a.Callee.Name() == "WriteByte" || a.Callee.Name() == "WriteRune") && len(a.Args) == 2:
+			x := a.Args[1]
+			if x.isConst() && x.Const != nil {
+				if v, ok := constant.Int64Val(x.Const); ok {
+					sb.WriteRune(rune(v))
+					continue
+				}
+			}
+			sb.WriteString("%")
+		}
+	}
+	skeleton = sb.String()
+	rest := skeleton
+	for rest != "" {
+		i := strings.IndexByte(rest, '\n')
+		if i < 0 {
+			unk++
+			break
+		}
+		switch rest[:i+1] {
+		case "%:\n":
+			del++
+		case "%: %\n":
+			set++
+		case "\n":
+			// a blank line separates blocks
+		default:
+			unk++
+		}
+		rest = rest[i+1:]
+	}
+	return
 }
 
 // classify an atom symbol into one of the table's predicates.
@@ -346,21 +422,11 @@ func (ev *c01env) knownKeyLoop(fn *ssa.Function, lp *loopInfo) {
 			return
 		}
 		// actions
-		del, set, unk := 0, 0, 0
+		del, set, unk, _ := outputLines(o.Actions)
 		var modelDel bool
 		var modelUpd *Sym
 		for _, a := range o.Actions {
 			switch a.Kind {
-			case "call":
-				k, _ := fprintfKind(a)
-				switch k {
-				case "DEL":
-					del++
-				case "SET":
-					set++
-				case "?":
-					unk++
-				}
 			case "mapdelete":
 				if a.Args[0].MentionsField(ev.fileConfigF) {
 					modelDel = true
@@ -547,20 +613,14 @@ func (ev *c01env) newKeyLoop(fn *ssa.Function, lp *loopInfo) {
 		if earlyExit {
 			continue
 		}
-		del, set := 0, 0
+		del, set, unk, _ := outputLines(o.Actions)
+		if unk > 0 {
+			c.Undecided(R, key+":format", site, "a configuration line is printed with an unrecognised format")
+			return
+		}
 		var modelUpd *Sym
 		for _, a := range o.Actions {
 			switch a.Kind {
-			case "call":
-				switch k, _ := fprintfKind(a); k {
-				case "DEL":
-					del++
-				case "SET":
-					set++
-				case "?":
-					c.Undecided(R, key+":format", site, "a configuration line is printed with an unrecognised format")
-					return
-				}
 			case "mapupdate":
 				if a.Args[0].MentionsField(ev.fileConfigF) {
 					modelUpd = a.Args[2]
@@ -628,6 +688,29 @@ func (ev *c01env) trigger(fn, diff *ssa.Function) {
 			}
 		}
 		return false
+	}
+	// the decision may live in a predicate of the package: "if w.changed(res) { diff }". Then the diff is entered exactly
+	// when the predicate returns true, and the predicate is what has to be analysed.
+	var pred *ssa.Function
+	eachInstr(fn, func(b *ssa.BasicBlock, in ssa.Instruction) {
+		ci, ok := in.(ssa.CallInstruction)
+		if !ok || ci.Common().StaticCallee() != diff {
+			return
+		}
+		for _, f := range factsAt(b) {
+			if call, ok := f.Cond.(*ssa.Call); ok && f.True {
+				if g := call.Call.StaticCallee(); g != nil && g.Pkg == fn.Pkg && g.Blocks != nil && g.Signature.Results().Len() == 1 && isBoolean(g.Signature.Results().At(0).Type()) {
+					pred = g
+				}
+			}
+		}
+	})
+	if pred != nil {
+		// every call of the diff in fn must be under the predicate alone
+		fn = pred
+		callsDiff = func(o *e6Outcome) bool {
+			return o.Term == "return" && len(o.Results) == 1 && o.Results[0].isConst() && o.Results[0].Const != nil && o.Results[0].Const.Kind() == constant.Bool && constant.BoolVal(o.Results[0].Const)
+		}
 	}
 	site := p.pos(fn.Pos())
 	loops := naturalLoops(fn)
